@@ -91,9 +91,11 @@ def rich(k, main=None):
            _p('t%db' % k)]]
 
 
-def assign(prog, assignment, diag=None):
+def assign(prog, assignment, diag=None, run_if=None):
   prog = json.loads(json.dumps(prog))
   for n, _ in pm.walk(prog):
+    if n[0] == 'P' and n[1] in (run_if or {}):
+      n[2]['run_if'] = run_if[n[1]]
     if n[0] == 'P' and n[1] in assignment:
       r = assignment[n[1]]
       n[2]['r'] = ['R', 'R', 'R'] if r == 'R' else r
@@ -119,6 +121,27 @@ def enumerated(tier):
         if tier == 'quick' and (hash((name, p1, p2, b1, b2)) % 4):
           continue
         yield {'k': 'prog', 'prog': assign(sk, {p1: b1, p2: b2}), 'cfg': {}}
+  # run_if predicates that say no or raise (such a phase writes no record), with
+  # and without stop_on_first_failure; groups without setup phases, so that the
+  # phase may be the first one of the whole run
+  extra = {
+      'nosetup': [['G', [], [_p('m1'), _p('m1b')], [_p('t1a'), _p('t1b')]], _p('post')],
+      'nosetup_sub': [['T', 'st', [['G', [], [_p('m1')], [_p('t1a'), _p('t1b')]]]],
+                      _p('post')],
+      'nosetup_nested': [['G', [], [['G', [], [_p('m2')], [_p('t2a')]]],
+                          [_p('t1a'), _p('t1b')]]],
+  }
+  for name, sk in list(skeletons().items())[:3] + list(extra.items()):
+    ids = [n[1] for n, _ in pm.walk(sk) if n[0] == 'P']
+    for cfg in ({}, {'sof': 'opt'}, {'sof': 'conf'}):
+      for pid in ids:
+        for ri in (False, 'raise'):
+          yield {'k': 'prog', 'prog': assign(sk, {}, run_if={pid: ri}), 'cfg': cfg}
+          for other in ids:
+            if other != pid and (tier == 'thorough' or name in extra):
+              for b in ('F', 'X'):
+                yield {'k': 'prog', 'cfg': cfg,
+                       'prog': assign(sk, {other: b}, run_if={pid: ri})}
   nsched = PLAN[tier]['schedules_per_program']
   for fi in range(len(FAMILY)):
     if nsched is None:
@@ -175,10 +198,12 @@ def gen_group_program(rng):
       b['m'] = rng.choice(['pass', 'fail'])
     if rng.random() < .1:
       b['ds'] = [[['D1', 0]]]
+    if rng.random() < .07:
+      b['run_if'] = rng.choice([False, 'raise'])
     return ['P', '%s%d' % (prefix, next(ids)), b]
 
   def group(depth, in_sub):
-    s = [phase('s') for _ in range(rng.randint(1, 2))]
+    s = [phase('s') for _ in range(rng.choice([0, 1, 1, 1, 2, 2]))]
     m = [node(depth - 1, in_sub) for _ in range(rng.randint(0, 3))]
     t = [phase('t') for _ in range(rng.randint(1, 2))]
     if depth > 1 and rng.random() < .3:
@@ -216,7 +241,8 @@ def gen_group_program(rng):
 
 def sampled(tier, rng):
   while True:
-    yield {'k': 'prog', 'prog': gen_group_program(rng), 'cfg': {}}
+    yield {'k': 'prog', 'prog': gen_group_program(rng),
+           'cfg': rng.choice([{}, {}, {}, {'sof': 'opt'}, {'sof': 'conf'}])}
 
 
 _POINTS = {}
@@ -227,7 +253,8 @@ def run_prog(case):
   obs = {'events': real['_events'], 'phases': real.get('phases') or [],
          'outcome': real.get('outcome'), 'branches': real.get('branches'),
          'checkpoints': real.get('checkpoints')}
-  viol, c = grouporacle.judge(case['prog'], obs)
+  viol, c = grouporacle.judge(case['prog'], obs,
+                              sof=bool((case.get('cfg') or {}).get('sof')))
   if real.get('exc') or real['ncallbacks'] != 1:
     viol.append({'mechanism': 'execute-raised-or-no-record',
                  'detail': {'exc': real.get('exc')}})
